@@ -496,6 +496,21 @@ def gen_cases(ctx):
                            'keyform': r.choice(['str', 'obj']),
                            'kind': 'equivalent groups sharing data'}
                 i += 1
+        # (a3) scale: more descriptors in one mapping than any shipped
+        # library has groups (the largest has 208): a library assembled in
+        # memory from equal copies, 257 .. 1030 entries
+        if not getattr(lib, 'uq_contents', None) and names:
+            for nbig in (257, 300, 513, 1030):
+                if ctx.mine(i) and (ctx.tier == 'thorough' or
+                                    (i // 16 + ctx.seed) % 3 == 0):
+                    r = ctx.sub_rng('big', spec, nbig)
+                    al = [['copy%d' % q, names[q % len(names)], 'copy']
+                          for q in range(nbig)]
+                    yield {'lib': spec, 'aliases': al, 'ntemps': 2,
+                           'mapping': [[a[0], r.choice([1, 2, -1, 0.5, 3])]
+                                       for a in al],
+                           'kind': 'mapping of %d descriptors' % nbig}
+                i += 1
         # (e) fresh library, before any decomposition
         if ctx.mine(i) and names:
             yield {'lib': spec, 'mapping': [[names[0], 2]], 'fresh': True,
